@@ -527,4 +527,24 @@ def _domain(v):
                 raise ValueError("local")
 
 
-PROP = C02()
+from srccall import with_src  # noqa: E402
+
+# translated source: `_parse_letter_version` is proved equal to V.parseLetterVersion, which is what the scanner's
+# letter groups compute on the captured texts (Src.scanLetterGroup_eq_parse, Src.scanPost_eq_parse); `Version.__str__`,
+# `.public`, `.base_version`, `.is_prerelease` and `_TrimmedRelease.release` (with the property getters they read) are
+# proved equal to Ver.str / .public / .base / .isPre / trimRelease on the object records of PkgModel/PyObj.lean
+PROP = with_src(C02(), share=6, functions=["_parse_letter_version", "Version.__str__", "Version.public", "Version.base_version",
+                        "Version.is_prerelease", "_TrimmedRelease.release", "Version.epoch", "Version.release",
+                        "Version.pre", "Version.post", "Version.dev", "Version.local"],
+                module=["PkgProofs.Props.Src.Version", "PkgProofs.Props.Src.VersionStr"],
+                theorems=["Src._parse_letter_version_translated", "Src._parse_letter_version_eq_model",
+                 "Src.scanLetterGroup_eq_parse", "Src.scanPost_eq_parse",
+                 "Src.Version.__str___translated", "Src.Version.__str___eq_model",
+                 "Src.Version.public_translated", "Src.Version.public_eq_model",
+                 "Src.Version.base_version_translated", "Src.Version.base_version_eq_model",
+                 "Src.Version.is_prerelease_translated", "Src.Version.is_prerelease_eq_model",
+                 "Src._TrimmedRelease.release_translated", "Src._TrimmedRelease.release_eq_model",
+                 "Src._TrimmedRelease.release_other",
+                 "Src.Version.getters_translated", "Src.Version.epoch_eq_model", "Src.Version.release_eq_model",
+                 "Src.Version.pre_eq_model", "Src.Version.post_eq_model", "Src.Version.dev_eq_model",
+                 "Src.Version.local_eq_model"])
